@@ -273,6 +273,53 @@ async fn run(name: &str) -> Result<(), String> {
             let r = timeout(Duration::from_secs(4), async { ticket.await; ticket2.await }).await;
             r.map_err(|_| "tickets unresolved 4s after the last Job handle was dropped and the process ended".to_string())
         }
+        // C06/C07 (D18): a graceful stop whose grace expires after the last Job handle was dropped still force-kills the process and resolves its ticket
+        "graceful_stop_kills_at_expiry_after_handles_dropped" => {
+            let (job, _task) = start_job(sh("trap '' TERM; sleep 8 & wait; sleep 8"));
+            job.start().await;
+            tokio::time::sleep(Duration::from_millis(300)).await;
+            let t = job.stop_with_signal(Signal::Terminate, Duration::from_millis(300));
+            drop(job);
+            let t0 = std::time::Instant::now();
+            let r = timeout(Duration::from_secs(3), t).await;
+            r.map_err(|_| format!("stop_with_signal(TERM, 300ms) on a process that ignores TERM, last Job handle dropped right after: ticket unresolved after {:?} (no kill at expiry)", t0.elapsed()))
+        }
+        // C07/C10 (D18): controls queued before the last Job handle was dropped are executed, in order, each once
+        "pending_controls_run_after_handles_dropped" => {
+            for _round in 0..10 {
+                let (job, task) = start_job(sh("sleep 30"));
+                let log = Arc::new(std::sync::Mutex::new(Vec::new()));
+                let mut tickets = Vec::new();
+                tickets.push(job.start());
+                for i in 1..=3usize { let l = log.clone(); tickets.push(job.run(move |_| { l.lock().unwrap().push(i); })); }
+                tickets.push(job.stop());
+                drop(job);
+                let r = timeout(Duration::from_secs(4), async { for t in tickets { t.await; } }).await;
+                let _ = timeout(Duration::from_secs(4), task).await;
+                let got = log.lock().unwrap().clone();
+                if r.is_err() { return Err(format!("tickets of controls queued before the last handle was dropped unresolved after 4s; ran {got:?}")); }
+                if got != vec![1, 2, 3] { return Err(format!("start, run(1), run(2), run(3), stop were queued, then the last Job handle dropped: the functions that ran were {got:?} (expected [1, 2, 3])")); }
+            }
+            Ok(())
+        }
+        // C09/C10/C07: the ticket of a compound operation (restart = Stop + Start) is the ticket of its LAST control: it resolves once the fresh process has been hooked and spawned
+        "compound_ticket_is_the_last_controls" => {
+            let (job, task) = start_job(sh("sleep 30"));
+            let hooked = Arc::new(AtomicUsize::new(0));
+            let h2 = hooked.clone();
+            job.set_spawn_async_hook(move |_c, _ctx| { let h = h2.clone(); Box::new(async move { tokio::time::sleep(Duration::from_millis(300)).await; h.fetch_add(1, Ordering::SeqCst); }) }).await;
+            timeout(Duration::from_secs(5), job.start()).await.map_err(|_| "start ticket unresolved".to_string())?;
+            timeout(Duration::from_secs(5), job.restart()).await.map_err(|_| "restart ticket unresolved".to_string())?;
+            let n = hooked.load(Ordering::SeqCst);
+            if n != 2 { return Err(format!("restart() ticket resolved when the spawn hook had completed {n} time(s) (expected 2: the fresh process is hooked and spawned before the ticket of restart resolves)")); }
+            timeout(Duration::from_secs(5), job.restart_with_signal(Signal::Terminate, Duration::from_secs(2))).await.map_err(|_| "restart_with_signal ticket unresolved".to_string())?;
+            let n = hooked.load(Ordering::SeqCst);
+            if n != 3 { return Err(format!("restart_with_signal() ticket resolved when the spawn hook had completed {n} time(s) (expected 3)")); }
+            let d = job.delete();
+            timeout(Duration::from_secs(5), d).await.map_err(|_| "delete ticket unresolved".to_string())?;
+            timeout(Duration::from_secs(5), task).await.map_err(|_| "delete() ticket resolved but the job task had not ended 5 s later (the ticket was not the Delete control's)".to_string())?.map_err(|e| e.to_string())?;
+            Ok(())
+        }
         _ => Err(format!("unknown scenario {name}")),
     }
 }
